@@ -268,6 +268,7 @@ Proof.
   - exact Hoth.
   - exact Hcs.
   - intros Hfl. rewrite Hmem. rewrite <- (sbp_flagged _ _ Ssbp), flagged_clr in Hfl. exact Hfl.
+  - intros Hm. rewrite Hmem in Hm. rewrite <- (sbp_flagged _ _ Ssbp), flagged_clr. exact Hm.
   - exact Hnow.
   - rewrite Hlast. pose proof (i_clk _ _ _ I). lia.
   - rewrite <- (sbp_maxchg _ _ Ssbp). pose proof (maxchg_clr en sd). lia.
